@@ -32,6 +32,7 @@ deriving Repr
 /-- the generator's record of one failing evaluation -/
 structure Expect where
   kind : String := "plain"
+  phase : String := "call"      -- "load": the failing code runs while the object is loaded (variable initialiser)
   file : String
   lo : Int
   hi : Int
@@ -155,7 +156,7 @@ def judgeDec (prog : String) (evs : List CEv) (runs : List (Nat × String)) : Li
     | (none, _) :: es', _ :: gs' => go (off + 1) es' gs'
     | (some e, ini) :: es', g :: gs' =>
       if e == g then go (off + 1) es' gs'
-      else [s!"{if ini then "dec-init" else "dec-mismatch"} prog={prog} off={off} expected={e} got={g}"]
+      else [s!"dec-mismatch prog={prog} off={off}{if ini then " (initialiser)" else ""} expected={e} got={g}"]
   go 1 exp got
 
 /-! ## J1 -/
@@ -212,7 +213,7 @@ def judgeObs : List Obs → List (String × List CEv) → List (String × String
 /-- the specification oracle: list of violations (empty = the property held on this run) -/
 def judgeEv (exps : List Expect) (obs : List Obs) : List String :=
   let loadFailed := obs.any fun | .loadFail => true | _ => false
-  if loadFailed && !(exps.any fun e => e.kind == "init") then
+  if loadFailed && !(exps.any fun e => e.phase == "load") then
     -- the generated program did not compile: a defect of the generator, not an observation about C18
     ["setup load-failed"]
   else
